@@ -159,6 +159,23 @@ def check_tree(item):
     return out
 
 
+def missing_display_names(value, text):
+    """declared display (code) names of the library's symbols and functions occurring in `value` that are absent from the rendering as
+    whole identifiers ("Symbols appear under their display names")"""
+    import re
+    from symplyphysics.core.symbols.symbols import DimensionSymbol
+    if not isinstance(value, sp.Basic):
+        return []
+    leaves = {a for a in value.atoms(sp.Symbol) if isinstance(a, DimensionSymbol)}
+    leaves |= {a.func for a in value.atoms(sp.core.function.AppliedUndef) if isinstance(a.func, DimensionSymbol)}
+    out = []
+    for leaf in leaves:
+        dn = getattr(leaf, "display_name", None)
+        if dn and not re.search(r"(?<![A-Za-z_0-9])" + re.escape(dn) + r"(?![A-Za-z_0-9])", text):
+            out.append(dn)
+    return sorted(out)
+
+
 def check_file(relpath):
     """all documented formula members of one catalogue module, in source form"""
     from symplyphysics.docs.printer_code import code_str
@@ -184,6 +201,12 @@ def check_file(relpath):
         if isinstance(m.value, (list, tuple)):
             out.append({"name": name, "verdict": "unencoded", "why": "list-valued member"})
             continue
+        missing = missing_display_names(m.value, text)
+        if missing:
+            out.append({"name": name, "verdict": "candidate", "why": f"declared display names {missing} do not appear in the rendering", "file": relpath, "member": m.name,
+                        "text": text, "vals": None})
+            continue
+        out.append({"name": name + ":display-names", "verdict": "discharged", "trivial": True})
         try:
             v, why, model = judge(m.value, text, code_str, TIMEOUT_MS)
         except Exception as e:
@@ -225,6 +248,8 @@ relpath, member = {file!r}, {member!r}
 res = [r for r in c17.check_file(relpath) if r.get("member") == member and r["verdict"] == "candidate"]
 for r in res:
     print(r["name"], "rendering:", r.get("text"), "->", r["why"], r.get("vals"))
+if any("display names" in r["why"] or "raised" in r["why"] for r in res):
+    print("REPRODUCED"); sys.exit(1)
 if res:
     # numeric confirmation at the model
     from vlib import docsrc, exprparse
@@ -336,7 +361,10 @@ f"all {len(files)} catalogue source files (every :laws:symbol:: member)",
             nmem += 1
             v = r["verdict"]
             if v == "discharged":
-                ctx.ob(r["name"], "discharged", sample={"member": r["name"], "rendering": r["text"]} if len(ctx.samples) < 10 else None)
+                if r.get("trivial"):
+                    ctx.ob(r["name"], "discharged", nontrivial=False)
+                else:
+                    ctx.ob(r["name"], "discharged", sample={"member": r["name"], "rendering": r.get("text")} if len(ctx.samples) < 10 else None)
             elif v == "out_of_grammar":
                 ctx.ob(r["name"], "inconclusive", "out_of_grammar: " + r["why"][:60])
             elif v in ("unencoded", "inconclusive"):
